@@ -83,8 +83,11 @@ def run_property(pid, tier, seed, relock=False, verbose=False):
             print('DEGRADED function=%s reason=no contract' % q)
             degraded.append((q, 'no contract'))
         for ci, c in enumerate(db.contracts.get(q, [])):
-            for case in db.cases_of(c):
-                tasks.append((q, ci, {'timeout': timeout, 'retry': retry, 'seed': seed % 1000, 'procs': 8, 'case': case}))
+            for case in db.cases_of(c, 'thorough' if relock else tier):
+                flt = (P.get('case_filter') or {}).get(q)
+                if flt and any(case.get(k2) != v2 for k2, v2 in flt.items()):
+                    continue
+                tasks.append((q, ci, {'timeout': timeout, 'retry': retry, 'seed': seed % 1000, 'procs': 8, 'case': case, 'kinds': P.get('kinds')}))
     for out in isolate.run(tasks, build, jobs=3):
         q = out['q']
         if out.get('error'):
@@ -116,18 +119,28 @@ def run_property(pid, tier, seed, relock=False, verbose=False):
             vacuous.append(lst[0])
 
     if relock:
-        lk = {k: v for k, v in lock.items() if k.split('/')[0].split('@')[0] not in P['functions']}
-        for o, r in discharged:
-            lk[o.id] = 'P'
+        if P.get('kinds'):
+            lk = {k: v for k, v in lock.items() if not k.startswith(pid + ':')}
+            for o, r in discharged:
+                lk[pid + ':' + o.id] = 'P'
+        else:
+            gen = {o.id for o in obligations}
+            heads = {o.id.split('/')[0] for o in obligations}       # function@case heads verified in this run: their stale ids are dropped
+            lk = {k: v for k, v in lock.items() if ':' in k.split('/')[0] or k.split('/')[0] not in heads}
+            for o, r in discharged:
+                lk[o.id] = 'P'
         json.dump(lk, open(LOCK, 'w'), indent=0, sort_keys=True)
         print('relocked %s: %d discharged obligations (%d not discharged)' % (pid, len(discharged), len(failed)))
         for o, r in failed:
             print('  NOT DISCHARGED %s %s %s' % (o.id, r.verdict, o.meta['text'][:100]))
+        for o, r in guards:
+            if r.verdict == 'unsat':
+                print('  DEAD PATH / VACUOUS GUARD %s (%s)' % (o.id, o.meta['text']))
         return 0 if not failed else 2
 
     # ---- bounded stand-in: the same contract text evaluated on the real functions (plus property-specific harnesses)
     bounded = {'evaluations': 0, 'distinct_nontrivial': 0, 'samples': [], 'rule': '', 'witnesses': []}
-    qs = [q for q in P['functions'] if q in db.contracts]
+    qs = [q for q in list(P['functions']) + list(P.get('bounded_only', [])) if q in db.contracts]
     budget_env = {'VK_BUDGET': '300' if tier == 'quick' else '3000'}
     try:
         if not qs:
@@ -173,7 +186,7 @@ def run_property(pid, tier, seed, relock=False, verbose=False):
 
     for o, r in failed:
         q = fn_of[o.id]
-        locked = o.id in lock
+        locked = (o.id in lock) if not P.get('kinds') else ((pid + ':' + o.id) in lock)
         wit = None
         # (a) the solver's model, replayed natively
         if r.model:
@@ -225,8 +238,16 @@ def run_property(pid, tier, seed, relock=False, verbose=False):
     deg_fns = {q for q, _ in degraded}
     ids = {o.id for o in obligations}
     for k in lock:
-        q = k.split('/')[0].split('@')[0]
-        if q in P['functions'] and q not in deg_fns and k not in ids:
+        if P.get('kinds'):
+            if not k.startswith(pid + ':'):
+                continue
+            kk = k[len(pid) + 1:]
+        else:
+            if ':' in k.split('/')[0]:
+                continue
+            kk = k
+        q = kk.split('/')[0].split('@')[0]
+        if q in P['functions'] and q not in deg_fns and kk not in ids:
             missing.append(k)
 
     wall = time.time() - t0
